@@ -1497,8 +1497,14 @@ impl<'a, E: quiver_core::effects::Effect> Compiler<'a, E> {
         self.local_count = 0;
         self.current_receive_type_id = receive_type;
 
-        // Define captures as first locals in function body scope
+        // Define captures as first locals in function body scope. The collector is not
+        // scope-aware: `p.x` after a local `p = [x: 2]` is collected although the outer `p` may
+        // have no field `x`. Such a path cannot be pre-evaluated; the base variable is captured
+        // instead (if the body really reads the outer `p.x`, compiling that access reports the
+        // error). `defined_captures` is what is counted and pushed, so slots stay aligned.
+        let mut defined_captures: Vec<variables::Capture> = Vec::new();
         for capture in &unique_captures {
+            let mut capture = capture.clone();
             // Determine the type of the captured value
             // First check if the full path is already available (for nested captures)
             let capture_type = if let Some((full_type, _)) =
@@ -1523,6 +1529,7 @@ impl<'a, E: quiver_core::effects::Effect> Compiler<'a, E> {
                     // Use compile_accessor logic to determine type
                     // We need to compute this without generating bytecode
                     let mut last_type = var_type;
+                    let mut resolved = true;
 
                     for accessor in &capture.accessors {
                         let field_types = match accessor {
@@ -1534,7 +1541,10 @@ impl<'a, E: quiver_core::effects::Effect> Compiler<'a, E> {
                                     &capture.base,
                                 ) {
                                     Ok((_, types)) => types,
-                                    _ => continue,
+                                    _ => {
+                                        resolved = false;
+                                        break;
+                                    }
                                 }
                             }
                             ast::AccessPath::Index(index) => {
@@ -1545,18 +1555,29 @@ impl<'a, E: quiver_core::effects::Effect> Compiler<'a, E> {
                                     &capture.base,
                                 ) {
                                     Ok(types) => types,
-                                    _ => continue,
+                                    _ => {
+                                        resolved = false;
+                                        break;
+                                    }
                                 }
                             }
                         };
                         last_type = typing::union_type_ids(self.program, field_types);
                     }
-                    last_type
+                    if resolved {
+                        last_type
+                    } else {
+                        capture.accessors.clear();
+                        var_type
+                    }
                 } else {
                     continue;
                 }
             };
 
+            if defined_captures.contains(&capture) {
+                continue;
+            }
             scopes::define_variable(
                 &mut self.scopes,
                 &mut self.local_count,
@@ -1565,7 +1586,9 @@ impl<'a, E: quiver_core::effects::Effect> Compiler<'a, E> {
                 capture_type,
                 Provenance::Unknown, // Captures don't track provenance
             )?;
+            defined_captures.push(capture);
         }
+        let unique_captures = defined_captures;
 
         let mut parameter_fields = HashMap::new();
         if let Some(ast::Type::Tuple(tuple_type)) = &function.parameter_type {
